@@ -91,7 +91,9 @@ def generate_subgraphs(graph: IterationNode) -> list[IterationNode]:
             all_subgraphs.update(new_graphs)
             old_subgraphs = new_graphs
 
-    return list(all_subgraphs.values())
+    # A subgraph must be emitted before every subgraph derived from it, so order by decreasing
+    # number of remaining sparse layers (stable, so the breadth-first order is otherwise kept)
+    return sorted(all_subgraphs.values(), key=lambda g: -len(g.compressed_dimensions()))
 
 
 @to_ir_iteration_graph.register(IterationNode)
